@@ -308,13 +308,25 @@ func parseMWork(f []string) mWork {
 	return w
 }
 
+// morassRunWork forces the schedule with the short watchdog; when some step was reported
+// blocked the whole case is repeated once with a long watchdog, so that a goroutine that was
+// merely slow (a loaded machine) is not mistaken for a blocked one.
 func morassRunWork(w mWork) string {
+	obs := morassRunWorkOnce(w, 150*time.Millisecond)
+	if f := strings.Fields(obs); len(f) > 0 && strings.ContainsRune(f[0], 'b') {
+		obs = morassRunWorkOnce(w, 800*time.Millisecond)
+	}
+	return obs
+}
+
+func morassRunWorkOnce(w mWork, watchdog time.Duration) string {
 	base, err := os.MkdirTemp("", "verif-morass-")
 	if err != nil {
 		panic(err)
 	}
 	defer os.RemoveAll(base)
 	c := newMCtl(w.fault)
+	c.watchdog = watchdog
 	m, err := morassNew(w.ty, base, w.chunk, w.conc)
 	if err != nil {
 		panic(err)
